@@ -1,6 +1,6 @@
 #!/bin/bash
 # every thorough check under /usr/bin/time: verdict line, wall time, peak RSS
-cd "$(dirname "$0")"
+cd "$(dirname "$0")/.."
 for p in C01 C02 C03 C04 C05 C06 C07 C08 C09 C10 C11 C12 C13 C14 C15 C16 C17 C18; do
   /usr/bin/time -v ./run.sh $p thorough > /tmp/thor_$p.out 2>&1; rc=$?
   echo "$p rc=$rc $(grep -E "^$p thorough" /tmp/thor_$p.out | cut -c1-200) | $(grep -E 'Elapsed|Maximum resident' /tmp/thor_$p.out | tr '\n' ' ' | sed 's/(h:mm:ss or m:ss)//')"
